@@ -83,7 +83,23 @@ def run_table_case(seed, B):
     ops, expected, problems = [], [], []
     kinds = {}
     n_ops = rng.randrange(4, 40)
-    for _ in range(n_ops):
+    # snapshot replica: at step snap_at the table is serialised the way SyncObj snapshots a consumer
+    # (pickle of _serialize()), restored into a fresh object, and from then on fed the same commands
+    snap_at = rng.randrange(0, n_ops)
+    restored = None
+    for step in range(n_ops):
+        if step == snap_at:
+            try:
+                data = pickle.loads(pickle.dumps(impl._serialize()))
+                restored = B._ReplLockManagerImpl(U)
+                restored._deserialize(data)
+            except Exception as e:
+                problems.append('snapshot of the lock table at step %d failed: %r' % (step, e))
+                restored = None
+            if restored is not None and table_items(restored) != table_items(impl):
+                problems.append('replica restored from a snapshot taken at step %d has table %r, the original has %r'
+                                % (step, table_items(restored), table_items(impl)))
+            kinds['snapshot_nonempty' if getattr(impl, LOCKS_ATTR) else 'snapshot_empty'] = 1
         r = rng.random()
         if r < 0.45:
             now += rng.choice([0, 0, 1, 1, 1, 2, 3, max(U - 1, 0), U, U + 1, 2 * U + 1])
@@ -123,8 +139,23 @@ def run_table_case(seed, B):
                     problems.append('lock %r held by %r at the same instant %r on one table' % (L2, hs, t))
             if dict(getattr(impl, LOCKS_ATTR)) != before:
                 problems.append('isAcquired changed the table')
+            if restored is not None:
+                # monitor: the two replicas are at the same log position; at this instant no two
+                # different clients may each see the lock as theirs, one on each replica
+                for L2 in locks:
+                    h1 = holders(impl, L2, clients, t)
+                    h2 = holders(restored, L2, clients, t)
+                    clash = [(a, b) for a in h1 for b in h2 if a != b]
+                    if clash:
+                        problems.append('lock %r at instant %r: client %r holds it on the original replica and client %r '
+                                        'on the replica restored from a snapshot (step %d)' % (L2, t, clash[0][0], clash[0][1], snap_at))
         else:
             rc, exc = call_cmd(impl, op)
+            if restored is not None:
+                rc2, exc2 = call_cmd(restored, op)
+                if rc2 != rc or table_items(restored) != table_items(impl):
+                    problems.append('after %r the replica restored from a snapshot (step %d) returned %r / holds %r, the '
+                                    'original returned %r / holds %r' % (op, snap_at, rc2, table_items(restored), rc, table_items(impl)))
             after = dict(getattr(impl, LOCKS_ATTR))
             if exc is not None:
                 problems.append('replicated %s raised %s' % (op[0], exc))
